@@ -221,8 +221,19 @@ func c05Call(e Ev) Ev {
 	return resp
 }
 
+// c05Bad counts, per entry point, the calls that ended without a result (hang / out of memory, each of which costs
+// many seconds): after three of them the entry point is not called any more in this run - the finding is already
+// made, and a library change that makes an entry point spin must not turn the check into an hour-long run.
+var c05Bad = map[string]int{}
+
 func (c05) Exec(h []Ev) []Ev {
 	for _, e := range h {
+		if c05Bad[GS(e["op"])] >= 3 {
+			e["outcome"], e["panic"], e["site"], e["alloc"], e["input_same"] = "not-run", "", "", 0, true
+			e["len"] = len(GB(e["in"]))
+			e["kind"] = c05Kind[GS(e["op"])]
+			continue
+		}
 		r := c05Call(e)
 		if GS(r["outcome"]) == "hang" {
 			// confirm with a generous deadline in a fresh worker
@@ -237,6 +248,9 @@ func (c05) Exec(h []Ev) []Ev {
 			}
 			os.Unsetenv("C05_DEADLINE_S")
 			c05Deadline = 4 * time.Second
+		}
+		if o := GS(r["outcome"]); o == "hang" || o == "oom" {
+			c05Bad[GS(e["op"])]++
 		}
 		for k, v := range r {
 			e[k] = v
